@@ -2,7 +2,7 @@
 From Coq Require Import ZArith List Bool Lia.
 From RecordUpdate Require Import RecordUpdate.
 From SimVerif Require Import Model.Base Model.Env Model.FamEnv Model.RM Model.Maint Model.FloorTypes Model.Floor Model.FamFloor.
-From SimVerif Require Import Proofs.FloorReach Proofs.FloorSteps Proofs.FloorInv Proofs.FloorSys.
+From SimVerif Require Import Proofs.FloorReach Proofs.FloorSteps Proofs.FloorInv Proofs.FloorSys Proofs.FloorHist.
 Import ListNotations.
 Open Scope Z_scope.
 
@@ -85,3 +85,13 @@ Proof.
   vm_compute. split; [reflexivity|]. split; [|reflexivity].
   intros _. split; [discriminate|]. split; intros it E; [injection E as <-; split; reflexivity|discriminate].
 Qed.
+
+(** * a batch's routing-history updates are applied to all the parts it contains: in every reachable state of every well-formed
+    scenario, every part of a batch that device [d] holds (in a slot, in a buffer, or — a batcher — in the batch being filled) has a
+    history ending with [d], like a part travelling alone (Proofs/FloorHist.v; the batch object itself is only a carrier) *)
+Theorem C17_batch_parts_follow_the_batch : forall sc s d x b ps p,
+  reach_fl sc s -> aget d (f_devs (fst s)) = Some x ->
+  d_part x = Some (IBatch b ps) \/ d_out x = Some (IBatch b ps) \/ d_inprog x = Some (IBatch b ps) \/ (exists t, In (t, IBatch b ps) (d_buf x)) ->
+  In p ps -> exists h, p_hist p = h ++ [d].
+Proof. intros sc s d x b ps p HR Hx HS Hp. exact (held_part_history_ends_here sc s d x (IBatch b ps) p HR Hx HS Hp). Qed.
+Print Assumptions C17_batch_parts_follow_the_batch.
